@@ -1122,6 +1122,8 @@ def stream_dynsession(ctx, cap):
     probed = set()
     # corpus first: minimised past alarms / the shapes of known defects
     for path in sorted(Path(common.CORPUS_DIR, 'C16').glob('*.json')):
+        if path.name.startswith('budget-'):
+            continue        # inputs of stream budget
         with open(path, encoding='utf-8') as f:
             c = json.load(f)
         sessions = [[tuple(q) for q in sess] for sess in c['sessions']]
